@@ -116,6 +116,42 @@ def run_script(hbin, name, lines, workdir):
     return name, lines, rc, out
 
 
+def variant_of_case(case):
+    m = re.match(r"(?:corpus_.*_)?v(\d)", case) or re.search(r"_v(\d)$", case)
+    return int(m.group(1)) if m else 0
+
+
+def shrink_script(hbin, lines, still_fails, budget=160):
+    """delta debugging (ddmin) on the operations after `start`: the smallest script found within the budget on which
+    `still_fails(rc, out)` holds. Removing operations is always legal: what the contract forbids is a no-op in harness and model."""
+    try:
+        k0 = lines.index("start") + 1
+    except ValueError:
+        return lines
+    head, body = lines[:k0], lines[k0:]
+    runs = [0]
+
+    def fails(b):
+        runs[0] += 1
+        _, _, rc, out = run_script(hbin, "shrink_%d" % os.getpid(), head + b, vlib.CACHE)
+        return still_fails(rc, out)
+
+    n = 2
+    while len(body) >= 2 and runs[0] < budget:
+        chunk = max(1, len(body) // n)
+        reduced = False
+        for i in range(0, len(body), chunk):
+            cand = body[:i] + body[i + chunk:]
+            if cand and runs[0] < budget and fails(cand):
+                body, n, reduced = cand, max(n - 1, 2), True
+                break
+        if not reduced:
+            if chunk == 1:
+                break
+            n = min(n * 2, len(body))
+    return head + body
+
+
 def classify(impl, model):
     """which properties a differing observation line speaks about"""
     it, mt = set(impl.split()), set(model.split())
@@ -157,7 +193,9 @@ def collect(ck, tier, ex):
                         vlib.tree_hash([os.path.join(vlib.VERIF, "tools", "backend_gen.py"), os.path.join(vlib.VERIF, "corpus"), vlib.DRIVER])).encode()).hexdigest()[:16]
     cpath = os.path.join(vlib.CACHE, "backend_%s.json" % key)
     if os.path.exists(cpath):
-        return json.load(open(cpath))
+        r = json.load(open(cpath))
+        r["bins"] = {str(v): b for v, b in bins.items()}
+        return r
     n_random = 60 if tier == "quick" else 3000
     nops = 60 if tier == "quick" else 120
     workdir = os.path.join(vlib.CACHE, "h2work_%d" % os.getpid())
@@ -224,6 +262,7 @@ def collect(ck, tier, ex):
         pass
     with open(cpath, "w") as f:
         json.dump(res, f)
+    res["bins"] = {str(v): b for v, b in bins.items()}
     # keep the cache small
     olds = sorted((os.path.getmtime(os.path.join(vlib.CACHE, f)), f) for f in os.listdir(vlib.CACHE) if f.startswith("backend_") and f.endswith(".json"))
     for _, f in olds[:-6]:
@@ -246,6 +285,7 @@ def run(prop, tier):
         ck.extracted = vlib.run_extract()
         vlib.lake_build(["driver"])
     ex = ck.extracted
+    tier_shrinks = os.environ.get("VERIF_NO_SHRINK") is None
     for b in ps["broken"]:
         ck.log("PROOF SIDE BROKEN: " + b)
     res = collect(ck, tier, ex)
@@ -316,11 +356,25 @@ def run(prop, tier):
     mine_mm = [m for m in res["mismatches"] if prop in m["props"]]
     if res["aborts"]:
         a = res["aborts"][0]
-        ck.violation("abort", "# harness aborted rc=%s (sanitizer / assertion / crash in the real code)\n%s\n# ---- output tail ----\n# %s\n" % (
+        hb = res.get("bins", {}).get(str(variant_of_case(a["case"])))
+        if hb and tier_shrinks:
+            a = dict(a, script=shrink_script(hb, a["script"], lambda rc, out: rc == a["rc"]))
+        ck.violation("abort", "# harness aborted rc=%s (sanitizer / assertion / crash in the real code); script minimised by delta debugging\n%s\n# ---- output tail ----\n# %s\n" % (
             a["rc"], "\n".join(a["script"]), a["tail"].replace("\n", "\n# ")),
             "the real code aborted under the scheduler harness in case %s (rc=%s): %s" % (a["case"], a["rc"], a["tail"].strip().split("\n")[-1][:200]))
     if mine_or:
         o = mine_or[0]
+        hb = res.get("bins", {}).get(str(variant_of_case(o["case"])))
+        sc = res.get("scripts", {}).get(o["case"])
+        if hb and sc and tier_shrinks:
+            small = shrink_script(hb, sc, lambda rc, out: rc == 0 and any(p == prop for p, _ in bg.oracles(out.split("\n"))))
+            if len(small) < len(sc):
+                _, _, _, out_small = run_script(hb, "shrunk_%d" % os.getpid(), small, vlib.CACHE)
+                msgs = [m for p, m in bg.oracles(out_small.split("\n")) if p == prop]
+                if msgs:
+                    res.setdefault("scripts", {})[o["case"]] = small
+                    res.setdefault("outputs", {})[o["case"]] = out_small
+                    o = dict(o, msg=msgs[0] + " [script minimised by delta debugging: %d -> %d lines]" % (len(sc), len(small)))
         ck.violation("oracle", replay_text(o["case"], "property oracle on the real code: " + o["msg"]),
                      "property fails on the real code: %s (case %s; %d oracle hits for this property)" % (o["msg"], o["case"], len(mine_or)))
     elif mine_mm:
